@@ -588,3 +588,41 @@ package fsutil
 //@ func SubDirFS
 //@   property C09
 //@   modifies dirs[*]
+
+// ---------------------------------------------------------------------------
+// filter.go, hardlinks.go (C11)
+// ---------------------------------------------------------------------------
+
+// visibility of a path is the result of the last incremental match along its
+// component chain - the entry point Walk uses
+//@ func matchesLikeWalk
+//@   property C11 C10
+//@   requires pm != nil
+//@   effects MatchRes
+//@   loop 0 invariant last: rangeindex >= 0 ==> cnt(MatchRes) > old(cnt(MatchRes)) && arg(MatchRes, 0) == pm && arg(MatchRes, 1) == m
+//@   ensures decided_by_incremental_match: result1 == nil ==> cnt(MatchRes) > old(cnt(MatchRes)) && arg(MatchRes, 0) == pm && arg(MatchRes, 1) == result0
+
+// Open hides exactly what the matchers hide, decided through matchesLikeWalk
+//@ func filterFS.Open
+//@   property C11
+//@   requires fs != nil
+//@   requires notexist_is_an_error: os.ErrNotExist != nil
+//@   effects MatchRes
+//@   ensures include_decides: result1 == nil && fs.includeMatcher != nil && fs.excludeMatcher == nil ==> cnt(MatchRes) > old(cnt(MatchRes)) && arg(MatchRes, 0) == fs.includeMatcher && arg(MatchRes, 1)
+//@   ensures exclude_decides: result1 == nil && fs.excludeMatcher != nil ==> cnt(MatchRes) > old(cnt(MatchRes)) && arg(MatchRes, 0) == fs.excludeMatcher && !arg(MatchRes, 1)
+//@   at call FS.Open: visible: (fs.includeMatcher == nil && fs.excludeMatcher == nil) || cnt(MatchRes) > old(cnt(MatchRes))
+
+// Re-canonicalising hard links after filtering: a link whose source was not
+// seen in this (filtered) walk is forwarded as a plain file and becomes the
+// representative of its group; later members are forwarded as links to that
+// representative; directories and symlinks pass through untouched.
+//@ func hardlinkFilter.Walk$1
+//@   property C11
+//@   requires seenFiles != nil
+//@   modifies seenFiles[*], type types.Stat
+//@   effects WalkFn
+//@   ensures passerr: err != nil ==> result == err && cnt(WalkFn) == old(cnt(WalkFn))
+//@   ensures atmost: cnt(WalkFn) <= old(cnt(WalkFn)) + 1
+//@   ensures samepath: cnt(WalkFn) > old(cnt(WalkFn)) ==> arg(WalkFn, 0) == path && arg(WalkFn, 2) == nil
+//@   ensures recorded: cnt(WalkFn) > old(cnt(WalkFn)) && isptr(arg(WalkFn, 1), dirEntryWithStat) && !isptr(entry, dirEntryWithStat) ==> haskey(seenFiles, path)
+//@   ensures representative: cnt(WalkFn) > old(cnt(WalkFn)) && isptr(arg(WalkFn, 1), dirEntryWithStat) && !isptr(entry, dirEntryWithStat) ==> asptr(arg(WalkFn, 1), dirEntryWithStat).stat != nil && (asptr(arg(WalkFn, 1), dirEntryWithStat).stat.Linkname == "" || (exists k string :: old(haskey(seenFiles, k)) && asptr(arg(WalkFn, 1), dirEntryWithStat).stat.Linkname == old(seenFiles[k])))
